@@ -56,7 +56,21 @@ META.update({
             "assumptions": COMMON + ["the bounds are the property's numbers 0.001, 20, 0, 1 (not the crate's constants)", "-0.0 is accepted as 0"]},
 })
 
-ENGINES = {}
+from engines import miri, asan  # noqa: E402
+
+# extra engines per property and tier (E1 always runs first)
+_MIRI_SMOKE = miri({"quick": 1}, {"quick": 0.3}, timeout_s=900)
+_MIRI_16 = miri({"thorough": 16}, {"thorough": 1.0}, timeout_s=3000)
+_MIRI_4 = miri({"thorough": 4}, {"thorough": 1.0}, timeout_s=3000)
+_ASAN = asan({"thorough": "quick"}, timeout_s=3000)
+ENGINES = {
+    "C17": {"quick": [_MIRI_SMOKE], "thorough": [_MIRI_16, _ASAN]},
+    # the heapless containers (Vec<u8,32>, Vec<u32,3>, HistoryBuffer) are the only unsafe code reachable from the crate
+    "C04": {"thorough": [_MIRI_4]},
+    "C07": {"thorough": [_MIRI_4]},
+    "C15": {"thorough": [_MIRI_4]},
+    "C16": {"thorough": [_MIRI_4, _ASAN]},
+}
 
 HOOK_COMMITS = ["6c4927e"]
 NOT_APPLICABLE = {}
